@@ -197,8 +197,13 @@ def recovery_cases(rng, n, ids=()):
         chain = [('poly', 2, False)] if ns + nu <= 3 else [('delay', 1, 1)]
         kp = pykoop.KoopmanPipeline(lifting_functions=[('a', direct.build_real(chain[0]))],
                                     regressor=pykoop.Edmd(alpha=0.1))
-        kp.fit(X, n_inputs=nu, episode_feature=True)
-        bare = pykoop.Edmd(alpha=0.1).fit(kp.transform(X), n_inputs=kp.n_inputs_out_, episode_feature=True)
+        try:
+            kp.fit(X, n_inputs=nu, episode_feature=True)
+            bare = pykoop.Edmd(alpha=0.1).fit(kp.transform(X), n_inputs=kp.n_inputs_out_, episode_feature=True)
+        except Exception as e:  # noqa  (an exception on valid, well-conditioned data is itself a failing case)
+            bad.append(dict(what=f'pipeline fit on noise-free data of a linear system raised {type(e).__name__}: {e}',
+                            chain=repr(chain), X=X.tolist()))
+            continue
         if kp.regressor_.coef_.shape != bare.coef_.shape or \
                 np.max(np.abs(kp.regressor_.coef_ - bare.coef_)) > 1e-9 * max(1.0, float(np.max(np.abs(bare.coef_)))):
             bad.append(dict(what='pipeline fit differs from regressing on the pipeline\'s own lifted data',
